@@ -272,7 +272,10 @@ def manifest_region(run: Run):
     # the join separator is not visible in the hole path: read it off the template expression
     joins = [c for n in region for c in n.find_all(nodes.Call) if isinstance(c.node, nodes.Getattr) and c.node.attr == "join" and isinstance(c.node.node, nodes.Const)
              and c.args and J.expr_path(c.args[0]) == "proto.meta.address.package"]
-    run.table("decl.module:package-segments-joined-with-a-dot", len(joins) >= 1 and all(c.node.node.value == "." for c in joins), group="decl.module:package")
+    # ... or spelled with the join filter, anywhere in the template (`{% set x = proto.meta.address.package|join('.') %}`)
+    fjoins = [f for n in (list(region) + [tree]) for f in n.find_all(nodes.Filter) if f.name == "join" and J.expr_path(f.node) == "proto.meta.address.package"]
+    seps = [c.node.node.value for c in joins] + [(f.args[0].value if f.args and isinstance(f.args[0], nodes.Const) else None) for f in fjoins]
+    run.table("decl.module:package-segments-joined-with-a-dot", len(seps) >= 1 and all(x == "." for x in seps), detail=str(seps), group="decl.module:package")
 
 
 def imports_of_types_module(run: Run):
